@@ -226,3 +226,90 @@ pub fn chain_states(ty: &dyn GenType, seed: u64, per_base: usize) -> Vec<BitVec>
 pub fn bits_json(b: &BitVec) -> serde_json::Value {
     serde_json::json!(crate::evidence::hex(&b.to_bytes()))
 }
+
+/// "Special image" alphabet for a state of `n` bits in words of `w` bits: images that a guard or
+/// fast path keyed on result values would single out - a zero word (each position), an all-ones
+/// word, two equal words, all words equal, words whose wrapping sum is zero, a zero word with the
+/// rest summing to zero, a single non-zero word. The other words are dense background values.
+pub fn special_images(n: usize, w: usize, seed: u64) -> Vec<BitVec> {
+    let k = n / w;
+    let mask: u64 = if w == 64 { u64::MAX } else { (1u64 << w) - 1 };
+    let bg = |tag: u64| -> Vec<u64> {
+        let b = crate::alphabet::bg_bytes(seed, 0x5BEC + tag, 8 * k);
+        (0..k).map(|i| u64::from_le_bytes(b[8 * i..8 * i + 8].try_into().unwrap()) & mask | 1).collect()
+    };
+    let pack = |words: &[u64]| -> BitVec {
+        let mut v = BitVec::zero(n);
+        for (i, &x) in words.iter().enumerate() {
+            for b in 0..w {
+                if (x >> b) & 1 == 1 {
+                    v.set(i * w + b, true);
+                }
+            }
+        }
+        v
+    };
+    let fix_sum = |words: &mut Vec<u64>, free: usize| {
+        // make the wrapping sum of all words zero by adjusting word `free`
+        let s: u64 = words.iter().enumerate().filter(|(i, _)| *i != free).fold(0u64, |a, (_, &x)| a.wrapping_add(x)) & mask;
+        words[free] = s.wrapping_neg() & mask;
+    };
+    let mut out = Vec::new();
+    let mut tag = 0u64;
+    let mut next = || {
+        tag += 1;
+        bg(tag)
+    };
+    for i in 0..k {
+        let mut t = next();
+        t[i] = 0;
+        out.push(pack(&t));
+        let mut t = next();
+        t[i] = mask;
+        out.push(pack(&t));
+        // a single non-zero word
+        let mut t = vec![0u64; k];
+        t[i] = next()[i];
+        out.push(pack(&t));
+        // word i zero and the rest summing to zero
+        if k >= 3 {
+            let mut t = next();
+            t[i] = 0;
+            let free = (i + 1) % k;
+            fix_sum(&mut t, free);
+            out.push(pack(&t));
+        }
+        for j in i + 1..k {
+            let mut t = next();
+            t[j] = t[i];
+            out.push(pack(&t));
+            // two words zero
+            let mut t = next();
+            t[i] = 0;
+            t[j] = 0;
+            out.push(pack(&t));
+        }
+    }
+    let t = next();
+    out.push(pack(&vec![t[0]; k]));
+    for free in 0..k {
+        let mut t = next();
+        fix_sum(&mut t, free);
+        out.push(pack(&t));
+    }
+    out.retain(|v| !v.is_zero());
+    out
+}
+
+/// States whose image under the extracted (invertible) model is one of the special images.
+pub fn preimages_of_special(ex: &Extracted, w: usize, seed: u64) -> Vec<BitVec> {
+    let n = ex.mat.cols;
+    special_images(n, w, seed)
+        .into_iter()
+        .filter_map(|t| {
+            let mut rhs = t.clone();
+            rhs.xor_assign(&ex.c);
+            ex.mat.solve(&rhs)
+        })
+        .collect()
+}
